@@ -442,6 +442,49 @@ func c04IDs(p *core.Prog, r *core.Report, locks *core.Locks) {
 	// the connection's single reader goroutine is never parked on one call's
 	// full buffer beyond that exchange's life: other calls proceed
 	exchangeWaitsHaveLatch(p, r, "C04-R5")
+	c04ExchangeCtx(p, r)
+}
+
+// c04ExchangeCtx: an exchange's context is read by the connection's reader
+// goroutine for every later frame of the call (forwardPeerFrame) and by the
+// caller; it has no lock. It is therefore only assigned before the exchange
+// can be seen by another goroutine: in the constructor, or on the goroutine
+// that registered it - never inside a function started with `go`.
+func c04ExchangeCtx(p *core.Prog, r *core.Report) {
+	fld := mustField(p, r, "", "messageExchange", "ctx")
+	if fld == nil {
+		return
+	}
+	goTargets := map[*ssa.Function]bool{}
+	for _, f := range p.SrcFuncs {
+		core.EachInstr(f, func(i ssa.Instruction) {
+			g, ok := i.(*ssa.Go)
+			if !ok {
+				return
+			}
+			if mc, isMC := g.Call.Value.(*ssa.MakeClosure); isMC {
+				goTargets[mc.Fn.(*ssa.Function)] = true
+			}
+			if t := g.Call.StaticCallee(); t != nil {
+				goTargets[t] = true
+			}
+		})
+	}
+	n := 0
+	for _, st := range p.StoresTo(fld) {
+		n++
+		inGo := false
+		for g := st.Fn; g != nil; g = g.Parent() {
+			if goTargets[g] {
+				inGo = true
+			}
+		}
+		r.Check(!inGo, "C04-R5", fname(st.Fn), fmt.Sprintf("messageExchange.ctx assigned before the exchange is shared (#%d)", n), p.Pos(st.Instr.Pos()),
+			"not inside a goroutine body", "the exchange's context is assigned inside a goroutine started after the exchange was registered: the reader goroutine reads it concurrently for the call's next frames (data race)")
+	}
+	if n == 0 {
+		r.Errorf("no assignment of messageExchange.ctx found")
+	}
 }
 
 // recvPriority: shared by C04 (each caller receives its own complete response) and
@@ -703,6 +746,7 @@ func c04Pools(p *core.Prog, r *core.Report) {
 		r.Errorf("pool census found %d typed sync.Pool.Get sites (expected at least 3)", n)
 	}
 	noUseAfterPut(p, r, "C04-R7", "")
+	releasedByOwnersOnly(p, r, "C04-R7")
 }
 
 // noUseAfterPut: an object handed back to a sync.Pool belongs to whoever takes
